@@ -18,6 +18,12 @@ Decided (clang AST of all engine TUs; all-paths exploration with correlated pred
                    path (a held slot may be abandoned on other paths: ngeom is not advanced and the next acquire
                    re-initialises the slot — the `if (alpha == 0) continue;` idiom — so only a site that can never be
                    released is a lost geom)
+  R-CAPACITY       every decision (if / loop / ?: condition) that reads `scn->maxgeom` or a local computed from it lies in a
+                   validated slot producer, or one of its arms reports (non-zero store to scn->status / no-return error call);
+                   the capacity leaving a function any other way is exit 2 (cannot be followed)
+  R-INDEX-BOUND    every subscript of a fixed-extent flag array of mjvOption ({geom,site,joint,tendon,actuator,flex,skin}group,
+                   flags): interval evaluation of the index under the guards of the site (clamp macros, helpers, early
+                   returns, counting loops) gives a range inside [0, extent-1]; decayed passes followed into callees
   R-LIGHTS         `scn->lights + scn->nlight` is formed only where `scn->nlight < K <= extent(lights)` is known on the path;
                    nlight / lights are written only in such functions
 Not decided: that the emitted geoms are the enabled model geoms with the simulated pose; flex/skin vertex buffers (their
@@ -329,6 +335,77 @@ def run(res, tier):
         else:
             res.ok("R-WHO-WRITES", key, {"file": a["file"], "line": a["line"], "expr": a["expr"]})
 
+    # ------------------------------------------------------------------ R-CAPACITY
+    res.rule("R-CAPACITY", "the capacity of the geom array (scn->maxgeom, or a local computed from it) takes part in a decision "
+             "only inside a validated slot producer, or in a branch one arm of which reports (sets scn->status / calls a "
+             "no-return error handler): a private capacity test drops geoms without reporting the overflow", floor=1)
+    capd = [dict(c, tu=tu) for tu, f in sorted(facts.items()) for c in f.get("capacity", [])]
+    res.count("capacity_decisions", len(capd))
+    nth = {}
+    for c in capd:
+        f = c["function"]
+        nth[(f, c["kind"])] = nth.get((f, c["kind"]), 0) + 1
+        key = f"{f}:capacity-{c['kind']}#{nth[(f, c['kind'])]}"
+        if f in acquires:
+            # the producer's own capacity test is judged by R-ACQUIRE-SHAPE (a producer that fails there is reported there)
+            res.ok("R-CAPACITY", key, {"file": c["file"], "line": c["line"], "expr": c["expr"], "where": "slot producer"})
+        elif c["kind"] == "cond" and c["reported"]:
+            res.ok("R-CAPACITY", key, {"file": c["file"], "line": c["line"], "expr": c["expr"], "where": "reporting branch"})
+        elif c["kind"] == "cond":
+            res.bad("R-CAPACITY", key, c["file"], c["line"],
+                    f"`{c['expr']}` in {f} decides on the scene capacity outside the slot producer and no arm sets scn->status or "
+                    f"raises an error: geoms are dropped (or work is skipped) without the overflow being reported")
+        else:
+            raise AnalysisError(f"{c['file']}:{c['line']}: the scene capacity leaves {f} through `{c['expr']}` (not a decision, not "
+                                f"inside a slot producer): R-CAPACITY cannot follow it")
+    if not any(c["function"] in acquires for c in capd):
+        raise AnalysisError("no capacity decision found inside the validated slot producers: the capacity test has moved")
+
+    # ------------------------------------------------------------------ R-INDEX-BOUND
+    res.rule("R-INDEX-BOUND", "every subscript of a fixed-extent flag array of mjvOption (group tables, flags) has an index whose "
+             "interval under the guards of the site lies inside [0, extent-1] (interval evaluation of the index expression; "
+             "decayed passes are followed into the callee's parameter, also across translation units)", floor=60)
+    from .. import r_bound, ctypeinfo as _cti
+    isites = [dict(c, tu=tu) for tu, f in sorted(facts.items()) for c in f.get("index", [])]
+    extra = []
+    for c in isites:
+        if c["via"].startswith("pass:") and c.get("callee") and c.get("argi") is not None and _where(tu_defs, c["callee"]):
+            sub = r_bound.param_sites(unit_of(c["callee"]), c["callee"], c["argi"], _cti.load()["enumerators"])
+            for r2 in sub:
+                extra.append(dict(c, function=f"{c['function']}>{r2['function']}", index=r2["index"], lo=r2["lo"], hi=r2["hi"],
+                                  via=r2["via"], line=r2["line"] or c["line"], file=_where(tu_defs, c["callee"])))
+            c["via"] = "followed"
+    nth = {}
+    unfollowed = 0
+    for c in isites + extra:
+        if c["via"] == "followed":
+            continue
+        k0 = f"{c['function']}:{c['member']}"
+        nth[k0] = nth.get(k0, 0) + 1
+        key = f"{k0}#{nth[k0]}"
+        if c["lo"] is None and (c["via"] == "subscript" or c["via"].startswith("param:")):
+            raise AnalysisError(f"{c['file']}:{c['line']}: `{c['member']}[{c['index']}]` in {c['function']} lies in a construct the "
+                                f"interval analysis does not enter: R-INDEX-BOUND cannot decide it")
+        if c["lo"] is None:
+            unfollowed += 1
+            continue
+        inside = c["lo"] >= 0 and c["hi"] <= c["extent"] - 1
+        if not inside and c.get("caller_contract") and (c["lo"] == -r_bound.INF or c["hi"] == r_bound.INF):
+            raise AnalysisError(f"{c['file']}:{c['line']}: the index of `{c['member']}[{c['index']}]` in {c['function']} comes from a "
+                                f"scalar parameter with no bound inside the function: its range is the callers' contract, which "
+                                f"R-INDEX-BOUND does not follow")
+        if inside:
+            res.ok("R-INDEX-BOUND", key, {"file": c["file"], "line": c["line"], "index": c["index"], "interval": [c["lo"], c["hi"]]})
+        else:
+            lo = "-inf" if c["lo"] == -r_bound.INF else c["lo"]
+            hi = "+inf" if c["hi"] == r_bound.INF else c["hi"]
+            res.bad("R-INDEX-BOUND", key, c["file"], c["line"],
+                    f"`{c['member']}[{c['index']}]` (extent {c['extent']}): the index ranges over [{lo}, {hi}] at this site, not inside "
+                    f"[0, {c['extent'] - 1}] — the flag read belongs to a neighbouring table (or lies outside mjvOption), so the set "
+                    f"of drawn elements no longer follows the group / flag the user set")
+    res.count("option_index_sites", len(isites) + len(extra))
+    res.count("option_array_uses_not_followed", unfollowed)
+
     # ------------------------------------------------------------------ R-LIGHTS
     res.rule("R-LIGHTS", "a light slot scn->lights + scn->nlight is formed only where nlight < K <= extent is known; nlight/lights "
              "written only there", floor=4)
@@ -435,7 +512,21 @@ MUTANTS = [
      "rule=R-LIGHTS construct=mjv_makeLights:light-slot-bounded"),
     ("allocation-mismatch", [(_INIT, "mju_malloc(maxgeom*sizeof(mjvGeom))", "mju_malloc((maxgeom-1)*sizeof(mjvGeom))")],
      "rule=R-WHO-WRITES construct=mjv_makeScene:"),
+    ("private-capacity-test", [(VIS, _CONN, "  if (scn->ngeom + 1 > scn->maxgeom) {\n    return;\n  }\n" + _CONN)],
+     "rule=R-CAPACITY construct=addConnector:capacity-cond#1"),
+    ("private-capacity-test-local", [(VIS, _CONN, "  int room = scn->maxgeom - scn->ngeom;\n  if (room < 1) {\n    return;\n  }\n" + _CONN)],
+     "rule=R-CAPACITY construct=addConnector:capacity-cond#1"),
+    ("group-clamp-off-by-one", [(VIS, "    if (!vopt->sitegroup[mjMAX(0, mjMIN(mjNGROUP-1, m->site_group[i]))]) {",
+                                 "    if (!vopt->sitegroup[mjMAX(0, mjMIN(mjNGROUP, m->site_group[i]))]) {")],
+     "rule=R-INDEX-BOUND construct="),
+    ("group-clamp-lower-removed", [(VIS, "    if (!vopt->jointgroup[mjMAX(0, mjMIN(mjNGROUP-1, m->jnt_group[i]))]) {",
+                                    "    if (!vopt->jointgroup[mjMIN(mjNGROUP-1, m->jnt_group[i])]) {")],
+     "rule=R-INDEX-BOUND construct="),
     # controls: behaviour-preserving edits
+    ("ctl-group-clamp-local", [(VIS, "    if (!vopt->jointgroup[mjMAX(0, mjMIN(mjNGROUP-1, m->jnt_group[i]))]) {",
+                                "    int grp = m->jnt_group[i];\n    if (grp < 0) grp = 0;\n    if (grp > mjNGROUP-1) grp = mjNGROUP-1;\n"
+                                "    if (!vopt->jointgroup[grp]) {")], None),
+    ("ctl-capacity-test-reports", [(VIS, _CONN, "  if (scn->ngeom + 1 > scn->maxgeom) {\n    mju_error(\"scene full\");\n  }\n" + _CONN)], None),
     ("ctl-if-form", [(VIS, _CONN, "  mjvGeom* thisgeom = acquireGeom(scn, objid, category, objtype);\n  if (thisgeom) {\n"
                                   "    mjv_connector(thisgeom, type, width, from, to);\n    if (rgba) f2f(thisgeom->rgba, rgba, 4);\n"
                                   "    releaseGeom(&thisgeom, scn);\n  }\n")], None),
